@@ -229,12 +229,29 @@ def minDeadline : List Pend → Option Int
 
 def nextTimeout (s : State) : Option Int := minDeadline (s.pending.filter (fun p => !p.expired))
 
+/-- the clock advances by `dt` seconds: every stored deadline comes `dt` closer -/
+def advance (s : State) (dt : Int) : State :=
+  { s with pending := s.pending.map (fun p => { p with deadline := p.deadline - dt }) }
+
+/-- One turn of the timeout half of `wait_for_outgoing_message` when nothing else happens:
+`next_timeout()` (sweep + earliest remaining deadline `t`), `sleep_until(t)` — the clock is then
+exactly at `t` —, `continue`, `next_timeout()` again.  Returns the instant the transport asked to
+be woken at (relative to the clock before the op), if any. -/
+def wake (s : State) : State × Done × Option Int :=
+  let (s1, d1) := sweep s
+  match nextTimeout s1 with
+  | none => (s1, d1, none)
+  | some t =>
+    let (s2, d2) := sweep (advance s1 t)
+    (s2, d1 ++ d2, some t)
+
 inductive Op where
   | submit (late : Bool)
   | pump
   | sweep
   | setDeadline (rid : Nat) (d : Int)
   | submitNoResponse (late : Bool)
+  | wake
   | chunk (c : Chunk)
   | close (status : Nat)
   /-- a TCP-level Error / unexpected Acknowledge message: `handle_incoming_message` returns `Err` -/
@@ -248,6 +265,7 @@ def step (s : State) : Op → State × Done
   | .sweep => sweep s
   | .setDeadline rid d => ((setDeadline s rid d).1, [])
   | .submitNoResponse late => submitNoResponse s late
+  | .wake => let (s', d, _) := wake s; (s', d)
   | .chunk c => let (s', d, _) := chunk s c; (s', d)
   | .close st => close s st
   | .errmsg => (s, [])
